@@ -513,6 +513,9 @@ class ValueAccumulator(base.CallableMetric):
     return self.__class__(_data=tuple([x] for x in args))
 
   def merge(self, other: Self) -> None:
+    if not other.data:
+      # Nothing to merge from an empty accumulator.
+      return
     if not self._data:
       self._data = tuple(other.data)
       return
